@@ -32,30 +32,77 @@ class Loop(Exception):
     pass
 
 
-class FakeClf(object):
-    """what Type4Tag needs from a ContactlessFrontend: exchange() and the two size limits"""
+class Link(object):
+    """what is below clf.exchange(): the activation answer, then the scripted air to the card.  Records the timeout
+    GRANTED with every block.  With timed=True time is simulated: the card answers after `busy` x the time it is
+    entitled to - FWT, or WTXM x FWT for the block that follows the reader's S(WTX) response - and a reader that
+    granted less has given up by then: nfc.clf.TimeoutError although no block was lost."""
 
-    def __init__(self, air, act_rsp, max_send=256, max_recv=256):
+    def __init__(self, air, act_rsp, card_fwi=4, timed=False, busy=0.73):
         self.air = air
         self.act_rsp = act_rsp
-        self.max_send_data_size = max_send
-        self.max_recv_data_size = max_recv
         self.act_cmd = None
         self.budget = LIMIT
+        self.timeouts = []
+        self.timed = timed
+        self.busy = busy
+        self.card_fwt = 4096 / 13.56E6 * 2 ** (card_fwi if card_fwi <= 14 else 4)
+        self.deadline_misses = 0
 
-    def exchange(self, data, timeout):
+    def xchg(self, data, timeout):
         if self.act_cmd is None:
             self.act_cmd = bytes(data)
             return bytearray(self.act_rsp)
         self.budget -= 1
         if self.budget < 0:
             raise Loop()
+        self.timeouts.append(timeout)
+        card = self.air.card
+        entitled = self.card_fwt
+        if card.pend is not None and bytes(data) == bytes([0xF2, card.pend[0]]):
+            entitled = card.pend[0] * self.card_fwt          # FWT_TEMP = FWT x WTXM once the S(WTX) response is out
         r = self.air.exchange(data)
+        if r[0] == 'rx' and self.timed and timeout is not None and timeout < self.busy * entitled:
+            self.deadline_misses += 1
+            r = ('timeout',)
         if r[0] == 'rx':
             return bytearray(r[1])
         if r[0] == 'timeout':
             raise nfc.clf.TimeoutError
         raise nfc.clf.TransmissionError
+
+
+class FakeClf(object):
+    """what Type4Tag needs from a ContactlessFrontend: exchange() and the two size limits"""
+
+    def __init__(self, link, max_send=256, max_recv=256):
+        self.link = link
+        self.max_send_data_size = max_send
+        self.max_recv_data_size = max_recv
+
+    def exchange(self, data, timeout):
+        return self.link.xchg(data, timeout)
+
+
+class FakeDevice(object):
+    """a contactless device under a REAL nfc.clf.ContactlessFrontend: exchange() of the frontend is in the path"""
+
+    def __init__(self, link, max_send=256, max_recv=256):
+        self.link = link
+        self.max_send, self.max_recv = max_send, max_recv
+        self.vendor_name, self.product_name, self.chipset_name, self.path = 'verif', 'fake device', 'sim', 'sim:c12'
+
+    def get_max_send_data_size(self, target):
+        return self.max_send
+
+    def get_max_recv_data_size(self, target):
+        return self.max_recv
+
+    def send_cmd_recv_rsp(self, target, data, timeout):
+        return self.link.xchg(data, timeout)
+
+    def close(self):
+        pass
 
 
 def n_retry_of(fwi):
@@ -86,9 +133,15 @@ def activate(spec):
     card = Card(cfsc=cfsc, cmiu=spec['cmiu'])
     air = Air(card)
     t, act = make_target(spec)
-    clf = FakeClf(air, act, spec['max_send'], spec['max_recv'])
+    link = Link(air, act, card_fwi=spec['fwi'], timed=bool(spec.get('realclf')), busy=spec.get('busy', 0.73))
+    if spec.get('realclf'):
+        clf = nfc.ContactlessFrontend()
+        clf.device = FakeDevice(link, spec['max_send'], spec['max_recv'])
+        clf.target = t
+    else:
+        clf = FakeClf(link, spec['max_send'], spec['max_recv'])
     tag = nfc.tag.activate(clf, t)
-    return tag, clf, card, air
+    return tag, link, card, air
 
 
 def res_string(fn):
@@ -117,7 +170,7 @@ def pairs(script):
 
 def run_impl(spec):
     """the real code. returns (per item observations, final card state)"""
-    tag, clf, card, air = activate(spec)
+    tag, link, card, air = activate(spec)
     if tag is None:
         raise RuntimeError('activation of a well-formed Type 4 target was refused: %r' % {k: v for k, v in spec.items() if k != 'items'})
     if hasattr(tag._dep, 'max_extra_blocks') and spec.get('max_extra') is not None:
@@ -128,7 +181,9 @@ def run_impl(spec):
         card.plan = [list(p) for p in it['plan']]
         air.script = pairs(it['script'])
         air.blocks = []
-        clf.budget = LIMIT
+        link.budget = LIMIT
+        link.timeouts = []
+        link.deadline_misses = 0
         n0 = len(card.execs)
         if it['kind'] == 'T':
             r = res_string(lambda: tag.transceive(bytearray.fromhex(it['apdu'])))
@@ -136,7 +191,8 @@ def run_impl(spec):
             cla, ins, p1, p2, mrl = it['hdr']
             r = res_string(lambda: tag.send_apdu(cla, ins, p1, p2, bytearray.fromhex(it['data']), mrl, bool(it['check'])))
         obs.append({'res': r, 'pni': tag._dep.pni, 'blocks': list(air.blocks), 'nexecs': len(card.execs),
-                    'new_execs': list(card.execs[n0:]), 'consumed': pairs(it['script'])[:len(air.blocks)]})
+                    'new_execs': list(card.execs[n0:]), 'consumed': pairs(it['script'])[:len(air.blocks)],
+                    'timeouts': list(link.timeouts), 'deadline_misses': link.deadline_misses})
     return obs, card.state(), tag
 
 
@@ -158,9 +214,26 @@ def model_line(spec, flags, tag):
     return 'sess %d %d %d %s %s %d %d %d %s' % (miu, nnak, nack, flags, mx, FSC[min(spec['fsci'], 8)], spec['cmiu'], LIMIT, ' '.join(items))
 
 
+def tstr(t):
+    return 'none' if t is None else '%.9g' % t
+
+
 def impl_line(obs, state):
-    return ' '.join('%s;%d;%s;%d' % (o['res'], o['pni'], ','.join(hx(b) for b in o['blocks']) or '-', o['nexecs'])
+    return ' '.join('%s;%d;%s;%d;%s' % (o['res'], o['pni'], ','.join(hx(b) for b in o['blocks']) or '-', o['nexecs'],
+                                        ','.join(tstr(t) for t in o['timeouts']) or '-')
                     for o in obs) + ' | ' + state
+
+
+def model_seconds(line, fwt, dflt):
+    """the model gives the timeout of every block as a multiple of fwt (0 = the default fwt + delta_fwt): to seconds"""
+    items, sep, state = line.partition(' | ')
+    out = []
+    for it in items.split(' '):
+        f = it.split(';')
+        if len(f) == 5 and f[4] != '-':
+            f[4] = ','.join(tstr(dflt if m == '0' else int(m) * fwt) for m in f[4].split(','))
+        out.append(';'.join(f))
+    return ' '.join(out) + sep + state
 
 
 # ---------------------------------------------------------------- variant detection
@@ -363,7 +436,9 @@ def main():
                       'as nfc.clf.TransmissionError (driver error mapping is C13)',
                       'theorems and the exactness demand are about an exchange that starts with reader and card block numbers in step '
                       '(after activation or after successful exchanges); see the known finding for exchanges after a failed one',
-                      'frame waiting times are not modelled (every clf.exchange returns or raises)',
+                      'frame waiting times: the model gives the timeout granted with every block (default, or WTXM x fwt with the S(WTX) response); '
+                      'the harness device on simulated time takes a card to be entitled to FWT, and to WTXM x FWT after the S(WTX) response '
+                      '(ISO/IEC 14443-4 caps FWT_TEMP at FWT_MAX = 4.95 s; tt4.py does not, and neither does this oracle)',
                       'activation parameters are compared for well-formed RATS / SENSB_RES answers only (T0 announcing TA(1), TB(1)); '
                       'malformed answers and an S(WTX) block without WTXM byte are C08 (Model/TagAct.v, Model/TagReadAnyB.v)']
     ck.coq(gen=['IsoDepK'],
@@ -398,6 +473,7 @@ def main():
         add('corpus', spec_of(fsci=0, cmiu=13, items=[T(bytes([0xFF, 0, 0, 1])), T(bytes([0xFF, 0, 0, 30]), '', [[], [3]])]))
         add('corpus', spec_of(fwi=11, items=[T(bytes([0xFF, 1, 0, 5]), 'DLDL'), T(bytes([0xFF, 2, 0, 5]), 'LD')]))  # stale response after a failed exchange
         add('corpus', spec_of(fwi=11, items=[T(bytes([0xFF, 1, 0, 5]), 'DLDL'), T(bytes([0xFF, 2, 0, 5]), 'DL')]))  # executed twice after a failed exchange
+        add('corpus', spec_of(items=[A((0, 0x6C, 0, 3, 16), b'', check=1), A((0, 0x6C, 0, 3, 0), b'\x01\x02', check=1)]))   # status 6C05: one execution, the status is reported
         e = T(b'')
         e['nomonitor'] = 1                                                                              # not an APDU: correspondence only
         add('corpus', spec_of(items=[e]))
@@ -424,7 +500,7 @@ def main():
             for _ in range(4):
                 dl = rng.choice([0, 1, 2, 13, 14, 60, 250, 255, 256, 300])
                 mrl = rng.choice([0, 1, 10, 255, 256, 257, rng.randrange(0, 256)])
-                ins = rng.choice([0xA4, 0xB0, 0xD6, 0xEE])
+                ins = rng.choice([0xA4, 0xB0, 0xD6, 0xEE, 0x6C])
                 p1p2 = rng.choice([0, 1, 2, 12, 13, 14, 100, 300, rng.randrange(0, 600)])
                 items.append(A((rng.choice([0, 0x80, 0xFF]), ins, p1p2 >> 8, p1p2 & 255, mrl), bytes(rng.randrange(256) for _ in range(dl)),
                                check=rng.randrange(2), script=rng.choice(['', '', 'LD', 'DL', 'DDDC']), plan=rng.choice([[], [[2]], [[], [1]]])))
@@ -439,7 +515,20 @@ def main():
             for warm in (0, 1):
                 for pl in plans:
                     items = ([T(bytes([0xFF, 0, 0, 1]))] if warm else []) + [T(raw_apdu(rng, cl, rl), '', pl)]
-                    add('wtx', spec_of(fsci=fsci, cmiu=cmiu, items=items))
+                    sp = spec_of(fsci=fsci, cmiu=cmiu, items=items)
+                    sp['realclf'] = 1
+                    add('wtx', sp)
+        # ---- waiting times: a real ContactlessFrontend over a fake device on simulated time; the card uses 73% (or 99%) of
+        # the time it is entitled to (FWT, WTXM x FWT after the reader's S(WTX) response), FWI 4 and 8..14, WTXM up to 59
+        for fwi in (4, 8, 9, 10, 11, 12, 13, 14):
+            for w in (1, 2, 5, 20, 59):
+                for cl, rl, pl in ((4, 5, [[w]]), (4, 30, [[], [w]]), (20, 5, [[w], [w]]), (4, 30, [[w, w], [], [w]])):
+                    for busy in (0.73, 0.99):
+                        for sc in ('', 'DL', 'DDDDLD'):
+                            sp = spec_of(typ='AB'[(fwi + w) % 2], fsci=0, fwi=fwi, cmiu=13, items=[T(raw_apdu(rng, cl, rl), sc, pl)])
+                            sp['realclf'] = 1
+                            sp['busy'] = busy
+                            add('timing', sp)
 
         # ---- exhaustive fault scripts over short exchanges (both chainings, WTX), all budgets, both block numbers
         nf = 2 if quick else 3
@@ -485,15 +574,18 @@ def main():
                 sc = ''.join(rng.choice(FAULTS) if rng.random() < dens else 'DD' for _ in range(nr * 3))
                 pl = [[rng.randrange(1, 60) for _ in range(rng.choice([1, 1, 2]))] if rng.random() < 0.2 else [] for _ in range(nr)]
                 items.append(T(raw_apdu(rng, cl, rl), sc, pl))
-            add('random', spec_of(typ=rng.choice('AB'), fsci=fsci, fwi=fwi, cmiu=cmiu, items=items, max_send=max_send,
-                                  max_recv=rng.choice([256, 256, 128])))
+            sp = spec_of(typ=rng.choice('AB'), fsci=fsci, fwi=fwi, cmiu=cmiu, items=items, max_send=max_send,
+                         max_recv=rng.choice([256, 256, 128]))
+            if rng.random() < 0.25:
+                sp['realclf'] = 1
+            add('random', sp)
 
     # ------------------------------------------------------------------ run implementation + monitor
     lines, expect = [], []
     for kind, spec in specs:
         obs, state, tag = run_impl(spec)
         lines.append(model_line(spec, flags, tag))
-        expect.append((kind, spec, impl_line(obs, state)))
+        expect.append((kind, spec, impl_line(obs, state), tag._dep.fwt, tag._dep.fwt + tag._dep.delta_fwt))
         card = Card()
         monitor(ck, spec, obs, card)
         for it, o in zip(spec['items'], obs):
@@ -523,7 +615,7 @@ def main():
             if act is not None:
                 spec['act'] = act
             t, actrsp = make_target(spec)
-            clf = FakeClf(None, actrsp, ms, mrv)
+            clf = FakeClf(Link(None, actrsp), ms, mrv)
             try:
                 tag = nfc.tag.activate(clf, t)
                 if tag is None:
@@ -531,7 +623,7 @@ def main():
                     ck.broken.append('activation of a well-formed Type 4%s target was refused (FSCI %d FWI %d)' % (typ, fsci, fwi))
                     continue
                 d = tag._dep
-                got = 'ok tail=%d fsc=%d miu=%d retry=%d' % (clf.act_cmd[1] >> 4 if typ == 'A' else clf.act_cmd[6], d.miu + 3, d.miu, d.n_retry_nak)
+                got = 'ok tail=%d fsc=%d miu=%d retry=%d' % (clf.link.act_cmd[1] >> 4 if typ == 'A' else clf.link.act_cmd[6], d.miu + 3, d.miu, d.n_retry_nak)
                 if d.n_retry_ack != d.n_retry_nak:
                     got += ' ack=%d' % d.n_retry_ack
                 # monitor: never more than the card's frame size, never more than the device can send
@@ -624,7 +716,8 @@ def main():
     # ------------------------------------------------------------------ model run + compare
     out = mr.run(lines + act_lines + sim_lines + str_lines)
     nmis = 0
-    for line, (kind, spec, impl), got in zip(lines, expect, out):
+    for line, (kind, spec, impl, fwt_, dflt_), got in zip(lines, expect, out):
+        got = model_seconds(got, fwt_, dflt_)
         if got != impl:
             nmis += 1
             if nmis <= 5:
